@@ -91,6 +91,10 @@ func (r *c18Run) sweepTwice() []*c18Case {
 		{jObj("a", jArr(jObj("b", jInt(1), "c", jInt(2)), jInt(3)), "d", jInt(4)), []string{pa(k("d")), pa(k("a"), x(1)), pa(k("a"), x(0), k("b"))}},
 		{jArr(jObj("a", jArr(jInt(1), jInt(2)), "b", jInt(3)), jInt(4)), []string{pa(x(1)), pa(x(0), k("b")), pa(x(0), k("a"), x(0))}},
 		{jObj("a", jObj("b", jObj("c", jInt(1), "d", jInt(2)), "e", jInt(3)), "f", long), []string{pa(k("f")), pa(k("a"), k("e")), pa(k("a"), k("b"), k("c"))}},
+		// neighbouring arrays of different lengths: a removed element makes the reported difference an
+		// index that exists on one side only (bag-compare with that index ignored: see c18_compare.go)
+		{jArr(jArr(jInt(1)), jArr(jInt(1), jInt(2)), jArr(jArr(jInt(1)), jArr(jInt(1), jInt(2)), jArr(jArr(jInt(7)), jArr(jInt(7), jInt(8))))),
+			[]string{pa(x(0)), pa(x(2), x(0)), pa(x(2), x(2), x(0))}},
 	}
 	var out []*c18Case
 	for di, d := range docs {
@@ -211,6 +215,9 @@ func (r *c18Run) runTwice(cases []*c18Case) {
 				r.check(cs, n1 != n2, c18Diff{sig: sig("compare", cs.Entry, cs.Cell, "path-does-not-differ"),
 					observed: fmt.Sprintf("(bag-compare edited untouched) => %s where both hold %s", slip.ObjectString(co.Value), n1), expected: "a path to a difference", from: "impl:compare-vs-trees"})
 				r.c.Ev.Hist("compare_result", "path")
+				if n1 != n2 {
+					r.checkCompareIgnores(cs, b1, b2, cp, len(cs.Doc)+len(cs.Entry)+len(cs.Layout)+cs.Via+len(cp), cs.Entry, cs.Cell)
+				}
 			} else {
 				r.c.Ev.Hist("compare_result", "nil-for-different-bags")
 			}
